@@ -38,6 +38,9 @@ func genC06(r *PRNG, tier string) *Scenario {
 	if r.Chance(1, 8) {
 		return genC06BigLimit(r, scn, realIsServer)
 	}
+	if r.Chance(1, 6) {
+		return genC06Changed(r, scn, realIsServer)
+	}
 	L := r.Pick([]int{1, 2, 10, 125, 126, 512, r.Range(1, 5000)})
 	end := &EndCfg{ReadBuf: genBuf(r), WriteBuf: genWBuf(r, 125), ReadLimit: int64(L)}
 	var script []SItem
@@ -177,6 +180,10 @@ func oracleC06(run *Run) {
 	obs, _ := observations(rt)
 	if run.Scn.Class == "big-limit" {
 		oracleC06Big(run, e, rt, obs, who)
+		return
+	}
+	if run.Scn.Class == "limit-changed" {
+		oracleC06Changed(run, e, rt, obs, exps)
 		return
 	}
 	// the verdict is derived from the script itself (a shrunk scenario may have lost its target)
@@ -370,6 +377,169 @@ func oracleC06Big(run *Run, e *RealEnd, rt *Task, obs []Obs, who string) {
 		limit := uint64(6<<20) + 4096*received + 512*run.Stats.Steps
 		if run.AllocBytes > limit {
 			run.fail("C06", "allocation-by-claimed-length", "big-limit", "%s: a header claiming %d bytes (limit %d) made the run allocate %d bytes after receiving %d bytes (bound %d)", who, claimed, e.Cfg.ReadLimit, run.AllocBytes, received, limit)
+		}
+	}
+}
+
+
+// genC06Changed: the application changes the limit during the connection's
+// life, between two messages or between two reads of one message. Verdicts are
+// claimed only where every reading of the property agrees: a message no larger
+// than the smaller of the limits in force while it arrives must be readable in
+// full; a message larger than the larger of them can never be read in full
+// (ErrReadLimit, no more bytes delivered than that larger limit, close 1009).
+func genC06Changed(r *PRNG, scn *Scenario, realIsServer bool) *Scenario {
+	scn.Class = "limit-changed"
+	L1 := r.Pick([]int{2, 10, 100, 126, 512, r.Range(2, 3000)})
+	L2 := r.Pick([]int{1, L1 / 2, L1 - 1, L1 + 1, 2 * L1, r.Range(1, 2*L1)})
+	if L2 < 1 {
+		L2 = 1
+	}
+	end := &EndCfg{ReadBuf: genBuf(r), WriteBuf: genWBuf(r, 125), ReadLimit: int64(L1)}
+	lo, hi := min(L1, L2), max(L1, L2)
+	var script []SItem
+	var rops []ROp
+	if r.Bool() {
+		n := r.Range(0, lo)
+		script = append(script, SItem{Kind: "msg", MT: 2, Pay: Payload{Len: n, Seed: r.Uint64() >> 1}, Frags: genFrags(r, n)})
+		rops = append(rops, ROp{Kind: r.PickS([]string{"rm", "nr"}), Sizes: genSizes(r, false)})
+	}
+	mt := r.Range(1, 2)
+	over := r.Chance(2, 3)
+	if r.Bool() {
+		// between two messages: the new limit alone governs the next message
+		scn.Note = "between"
+		rops = append(rops, ROp{Kind: "limit", NewLimit: int64(L2)})
+		n := r.Pick([]int{L2, L2 - 1, r.Range(0, L2)})
+		if over {
+			n = L2 + r.Pick([]int{1, 2, 100, r.Range(1, 3000)})
+		}
+		if n < 0 {
+			n = 0
+		}
+		script = append(script, SItem{Kind: "msg", MT: mt, Pay: Payload{Len: n, Kind: genKind(r, mt), Seed: r.Uint64() >> 1}, Frags: genFrags(r, n)})
+		rops = append(rops, ROp{Kind: "nr", Sizes: genSizes(r, false)})
+	} else {
+		// between two reads of one fragmented message
+		scn.Note = "during"
+		n := r.Pick([]int{lo, lo - 1, r.Range(1, lo)})
+		if over {
+			n = hi + r.Pick([]int{1, 2, 100, r.Range(1, 3000)})
+		}
+		if n < 1 {
+			n = 1
+		}
+		// a first fragment the reader may start on, then fragments that are each small
+		f1 := r.Range(1, min(n, L1))
+		if f1 >= n {
+			f1 = max(1, n-1)
+		}
+		frags := []int{f1}
+		rem := n - f1
+		for k := r.Range(0, 3); k > 0 && rem > 1; k-- {
+			f := r.Range(1, rem-1)
+			if r.Bool() {
+				f = min(f, max(1, L2))
+			}
+			frags = append(frags, f)
+			rem -= f
+		}
+		script = append(script, SItem{Kind: "msg", MT: mt, Pay: Payload{Len: n, Kind: genKind(r, mt), Seed: r.Uint64() >> 1}, Frags: frags})
+		rops = append(rops, ROp{Kind: "nr", Sizes: genSizes(r, false), SetLimit: true, LimitAt: r.Pick([]int{0, 1, f1 / 2, f1 - 1, f1}), NewLimit: int64(L2)})
+	}
+	script = append(script, SItem{Kind: "ctl", Op: 8, Code: 1000})
+	rops = append(rops, ROp{Kind: "rm"})
+	l := Link{Script: script, ScriptChunk: r.Pick([]int{0, 0, 1, 100})}
+	task := TaskCfg{Kind: "reader", R: rops, ExtraReads: 1}
+	if realIsServer {
+		end.Server = r.PickS([]string{"mini", "mini", "nethttp"})
+		l.Server = end
+		l.STasks = []TaskCfg{task}
+	} else {
+		l.Client = end
+		l.CTasks = []TaskCfg{task}
+	}
+	scn.Links = []Link{l}
+	scn.Net = NetCfg{DefCap: genCap(r)}
+	scn.Sched.IdleHorizon = 5000
+	return scn
+}
+
+func oracleC06Changed(run *Run, e *RealEnd, rt *Task, obs []Obs, exps []Exp) {
+	// the limits in force while the last data message of the script arrives
+	L1 := int(e.Cfg.ReadLimit)
+	L2, during, found := L1, false, false
+	for _, op := range rt0(run).R {
+		if op.Kind == "limit" {
+			L2, found = int(op.NewLimit), true
+		}
+		if op.SetLimit {
+			L2, during, found = int(op.NewLimit), true, true
+		}
+	}
+	if !found {
+		return // shrunk away
+	}
+	lo, hi := L2, L2
+	if during {
+		lo, hi = min(L1, L2), max(L1, L2)
+	}
+	who := fmt.Sprintf("reader(server=%v,limit=%d then %d,%s)", e.IsServer, L1, L2, run.Scn.Note)
+	want, ncomplete := expectedWithPartial(exps)
+	if ncomplete == 0 || len(want) == 0 {
+		return
+	}
+	target := want[ncomplete-1]
+	n := len(target.Payload)
+	if rt == nil || !rt.Finished {
+		run.fail("C06", "reader-stuck", "limit-changed", "%s: the read program did not finish", who)
+		return
+	}
+	switch {
+	case n <= lo:
+		matched, errAt := checkDelivery(run, "C06", who, want[:ncomplete], obs, "")
+		run.Obligations += matched + 1
+		if matched != ncomplete {
+			detail := ""
+			if errAt < len(obs) {
+				detail = obs[errAt].Err + ": " + obs[errAt].ErrText
+			}
+			run.fail("C06", "within-limit-refused", "limit-changed/"+run.Scn.Note, "%s: a %d-byte message, within every limit in force while it arrived, could not be read in full: %s", who, n, detail)
+		}
+	case n > hi:
+		if len(obs) == 0 {
+			return // shrunk to a program that never reads
+		}
+		matched, errAt := checkDelivery(run, "C06", who, want[:ncomplete], obs, "")
+		run.Obligations += matched + 1
+		if matched < ncomplete-1 {
+			run.fail("C06", "within-limit-refused", "limit-changed/"+run.Scn.Note, "%s: only %d of the %d within-limit messages that precede the oversized one were delivered", who, matched, ncomplete-1)
+			return
+		}
+		if matched >= ncomplete || errAt >= len(obs) {
+			run.fail("C06", "over-limit-accepted", "limit-changed/"+run.Scn.Note, "%s: a %d-byte message, larger than every limit in force while it arrived, produced no error", who, n)
+			return
+		}
+		o := obs[errAt]
+		if !errors.Is(o.ErrVal, websocket.ErrReadLimit) {
+			run.fail("C06", "wrong-error", "limit-changed/"+run.Scn.Note, "%s: reading a %d-byte message returned %q, expected ErrReadLimit", who, n, o.ErrText)
+		}
+		if o.Kind == "msg" && len(o.Data) > hi {
+			run.fail("C06", "delivered-beyond-limit", "limit-changed/"+run.Scn.Note, "%s: %d bytes of an oversized message were delivered (limits %d, %d)", who, len(o.Data), L1, L2)
+		}
+		tv := decodeTap(wsTap(e), !e.IsServer, e.Negotiated)
+		if tv.V != nil {
+			run.fail("C06", "malformed-wire", tv.V.Rule, "%s wrote a malformed stream: %s", who, tv.V.Error())
+			return
+		}
+		sent1009 := false
+		for _, it := range tv.Items {
+			if it.Control && it.Opcode == wsframe.OpClose && it.CloseCode == 1009 {
+				sent1009 = true
+			}
+		}
+		if !sent1009 {
+			run.fail("C06", "no-1009", "limit-changed/"+run.Scn.Note, "%s: no close frame 1009 was sent for an oversized message", who)
 		}
 	}
 }
